@@ -448,8 +448,6 @@ def quiescent_end(w):
         if l.registered and l.ended is None:
             if l.k not in drained or l.pending or l.unacked or l.owe_ready or l.id is None:
                 return False
-            if getattr(l, "rel_pending", None):
-                return False
             if "unknown-data" in l.notes or "maybe-disconnected" in l.notes:
                 return False
     return True
@@ -477,6 +475,10 @@ def check_end(w):
                     l.k, l.name, j, got[j] if j < len(got) else None, exp[j] if j < len(exp) else "nothing more"))
             elif q and l.ended is None and not getattr(l, "deferred_end", None) and len(got) != len(exp):
                 w.viol(l.at, "C06", "link %d (%r): idle broker still owes %s" % (l.k, l.name, exp[len(got):][:3]))
+                if "inflight-full" in w.pause_reasons.get(l.k, ()):
+                    # C09: after in-order acks the broker must resume without further stimulus
+                    w.viol(l.at, "C09", "link %d (%r) had a full window, acknowledged everything in order, and the idle broker still owes it %s" % (
+                        l.k, l.name, exp[len(got):][:3]))
         # ---------------- session present flag (C08)
         if l.session_present is not None and hasattr(l, "expect_session") and not unreliable:
             if l.session_present != l.expect_session:
@@ -586,6 +588,8 @@ def check_delivery(w, q):
             for key, e in must_counts.items():
                 if counts.get(key, 0) < e:
                     w.viol(l.at, "C01", "idle broker: link %d (%r) is missing %r (got %d of %d)" % (l.k, l.name, key, counts.get(key, 0), e))
+                    if "inflight-full" in w.pause_reasons.get(l.k, ()):
+                        w.viol(l.at, "C09", "link %d (%r) had a full window and acknowledged everything in order, but the idle broker never forwarded the rest of its backlog (%r)" % (l.k, l.name, key))
                     break
         elif q and l.ended is None and not within_retention:
             w.skips["completeness-skipped-retention"] += 1
